@@ -189,6 +189,36 @@ func ZZC09_export_import() {
 		n := seen["blobs/"+d.Algorithm().String()+"/"+d.Encoded()]
 		zzAssert(n == 1, "archive_holds_each_reachable_digest_exactly_once")
 	}
+	// ---- Docker-loadable part: a single image also carries manifest.json naming the
+	// config file and one layer file per layer position, in the image's order ----
+	if !w.mans[w.top.Digest] || !strings.Contains(string(w.bytes[w.top.Digest]), `"manifests"`) {
+		var top v1.Manifest
+		zzAssert(json.Unmarshal(w.bytes[w.top.Digest], &top) == nil, "source_image_parses")
+		var dm []struct {
+			Config   string
+			RepoTags []string
+			Layers   []string
+		}
+		found := false
+		for _, e := range entries {
+			if strings.TrimPrefix(e.Hdr.Name, "./") == "manifest.json" {
+				found = true
+				zzAssert(json.Unmarshal(e.Data, &dm) == nil && len(dm) == 1, "docker_manifest_is_one_entry")
+			}
+		}
+		zzAssert(found, "single_image_carries_a_docker_manifest")
+		if found && len(dm) == 1 {
+			zzReach("docker_manifest_checked")
+			zzAssert(dm[0].Config == "blobs/sha256/"+top.Config.Digest.Encoded(), "docker_manifest_names_the_config")
+			zzAssert(len(dm[0].Layers) == len(top.Layers), "docker_manifest_lists_one_file_per_layer_position")
+			for i := range top.Layers {
+				if i < len(dm[0].Layers) {
+					zzAssert(dm[0].Layers[i] == "blobs/sha256/"+top.Layers[i].Digest.Encoded(), "docker_manifest_layers_in_image_order")
+				}
+			}
+			zzAssert(len(dm[0].RepoTags) == 1, "docker_manifest_has_a_repo_tag")
+		}
+	}
 	// ---- import in a symbolic order ----
 	var files []zztar.Entry
 	for _, e := range entries {
